@@ -48,6 +48,9 @@ CHECKS = {
  "C15": ("exploration", "bounded exhaustive enumeration of statement texts (token sequences, single-token mutations, nesting depths, ill-typed calls)",
    "All token sequences of length <= 4 (quick) / 5 (thorough) over a 28-token alphabet; 55 corpus statements under every single-token deletion / duplication / swap / replacement; 14 nesting families (parentheses, unary chains, CASE, subqueries, CTE chains, joins, IN lists, ...) at depths 2^0..2^13; every scalar and aggregate signature on ill-typed and extreme arguments; statements that fail at run time; after every statement the same session must still answer a probe query and a failed statement must leave the catalog unchanged. Outcome must be rows or error - a panic, hang, abort (stack overflow) or a poisoned session is a violation.",
    "Process-killing statements are isolated by the guard supervisor (child process + watchdog) and attributed by in-flight slots; the depth families are keyed by family, not by the exact depth where the stack ends."),
+ "C16": ("exploration", "bounded exhaustive enumeration (the statement / file / fault spaces of the other checks) re-executed on an AddressSanitizer build of engine and harness; a sanitizer report on any enumerated execution is the violation",
+   "Quick: every execution of the quick enumerations of C10 (valid Parquet files x encodings x page layouts x batch sizes) and C06 (join forms x databases x configurations) - thorough: of all statement-level checks incl. C19 (every truncation / byte substitution / metadata lie / I/O fault of small Parquet and CSV files) and the C04 schedule explorers - is repeated on a nightly -Zsanitizer=address build of GlareDB and the harness with debug assertions and overflow checks on; out-of-bounds accesses, use-after-free and double free in the hand-managed buffers abort the child with a report, the supervisor attributes it to the statement in flight and continues; internal consistency assertions are checked by every check's own run (panics are violations there).",
+   "Memory errors are decided on the enumerated executions only (monitor under the explorer). Not decided: reads of uninitialised memory and misalignment (Miri is not run), and the data-race clause (the thread-level explorer serialises threads and no happens-before monitor is attached); those two clauses are not claimed."),
  "C17": ("exploration", "bounded exhaustive enumeration of CSV files x read-chunk splits x batch sizes x partitions vs an RFC-4180 reference parser",
    "All grids of <=3x2 (quick) / <=4x3 (thorough) cells with every choice of <=2 special cells out of 13 (empty, numeric, boolean, multi-byte, padded, quoted with delimiter / doubled quote / LF / CRLF, quoted empty) and typed columns, rendered in 3 (quick) / 6 dialects x header yes/no x LF/CRLF x final newline yes/no; the rows must be explained by the harness's RFC-4180 parser under one admissible (dialect, header) decision with narrowest column types, and must be identical for every single split point of the byte stream into two reads (and all pairs of split points for small files), read sizes 1..7, batch sizes 1/2/3 and 1..3 partitions; size families crossing the 4 096-byte inference sample.",
    "Dialect / header inference is under-specified: any admissible candidate is accepted, but the same file must give the same rows under every split / batch / partition choice."),
@@ -63,7 +66,6 @@ CHECKS = {
 }
 
 NA = {
- "C16": "Memory safety of unsafe buffer code is not a property a bounded exhaustive exploration decides on its own: it needs a monitor (Miri / ASan) under the explorer. All checks run with debug assertions and overflow checks on, which catches index and arithmetic violations as panics, but no Miri / sanitizer run is wired into a registered command in this snapshot, so the property is not claimed.",
 }
 
 def main():
@@ -84,7 +86,7 @@ def main():
     commits = subprocess.run(["git", "-C", "/repo", "log", "--format=%h %s", "6fa831469..HEAD"], capture_output=True, text=True).stdout.strip().split("\n")
     m = {
         "version": 1,
-        "setup_cmd": "cd /verif/harness && CARGO_NET_OFFLINE=true RUST_BACKTRACE=0 cargo build --release --offline",
+        "setup_cmd": "cd /verif/harness && CARGO_NET_OFFLINE=true RUST_BACKTRACE=0 cargo build --release --offline && /verif/bin/vcheck build-asan",
         "hooks": {
             "guard": "--cfg glaredb_verif",
             "enable": "rustflags --cfg glaredb_verif in /verif/harness/.cargo/config.toml; the harness crate path-depends on /repo/crates/* and /verif/bin/vcheck rebuilds it from /repo's working tree before every check. Guarded source changes: H0 (lint declaration of the cfg) and H2 (scheduling points, ScheduleState transition log and a rayon::ThreadPool stand-in in crates/glaredb_rt_native/src/threaded, used only by C04's thread-level explorer); every other check runs against unmodified production code through public traits (PipelineRuntime, FileSystem).",
